@@ -522,7 +522,12 @@ func (mgr *Manager) Close() {
 				delete(mgr.listeners, ch)
 				close(ch)
 			}
-			close(l.close)
+			select {
+			case <-l.close:
+				// closed by its owner already (an event is still being delivered, so the listener is still listed)
+			default:
+				close(l.close)
+			}
 		}
 		for _, e := range mgr.pcapOverIPEndpoints {
 			e.cancel()
